@@ -606,6 +606,11 @@ func runJob(w *World, job Job) (res *JobResult) {
 			key = key[:i]
 		}
 		res.Ends[key]++
+		if end == "ok" {
+			// implicit obligation of every path: it terminates without a Go panic or unwinding failure
+			res.Asserts++
+			res.Discharged++
+		}
 		if res.Sample == "" && end == "ok" && !job.Concrete {
 			res.Sample = fmt.Sprintf("path#%d vars=%d pc=%d vector=%v", ex.pathNo, len(ex.vars), len(ex.pc), ex.vectorFrom(ex.currentModel()))
 		}
